@@ -15,6 +15,8 @@
 #include <sys/uio.h>
 
 #include "message.h"
+#include "graphic.h"
+#include "layout.h"
 #include "vf.h"
 
 const char *vf_name = "c17_cxx";
@@ -186,7 +188,192 @@ static uint64_t n_ex()
 	return n;
 }
 static uint64_t n_prng() { return vf_thorough ? 300000 : 10000; }
-uint64_t vf_cases(void) { return n_ex() + n_prng(); }
+
+/* -------------------------------------------- graphic::target / get_item */
+/*
+ * The C++ layer's own consumer of fragmented messages: "layout:graph:world[:dim]"
+ * addresses are split at ':' across the fragment list.  A case is one text;
+ * it is run contiguous and in every cut into 1..5 fragments (empty ones
+ * included), every fragment and the fragment list in exact-size blocks.
+ * target() is called twice (the second call works on the cursor the first one
+ * left): return codes, destination and remaining length must equal the
+ * contiguous run.
+ */
+static mpt::graphic *the_graphic;
+static void graphic_setup()
+{
+	if (the_graphic) return;
+	mpt::graphic *g = new mpt::graphic;
+	mpt::layout *l = g->create_layout();
+	mpt::identifier id;
+	l->set_alias("lay");
+	for (int i = 1; i <= 2; ++i) {
+		char name[8];
+		mpt::layout::graph *gr = new mpt::reference<mpt::layout::graph>::type;
+		id.set_name("w1");
+		gr->append(&id, new mpt::reference<mpt::layout::graph::world>::type);
+		id.set_name("w2");
+		gr->append(&id, new mpt::reference<mpt::layout::graph::world>::type);
+		snprintf(name, sizeof(name), "g%d", i);
+		id.set_name(name);
+		l->append(&id, gr);
+	}
+	if (l->bind(0) < 0 || l->graphs().size() != 2 || g->add_layout(l) != 0) vf_inconclusive("harness: graphic setup failed");
+	the_graphic = g;
+}
+struct gresult {
+	int r[2];
+	mpt::laydest d[2];
+	size_t left[2];
+	mpt::convertable *item;
+	size_t item_left;
+};
+static std::string gshow(const gresult &r)
+{
+	char b[200];
+	snprintf(b, sizeof(b), "target #1 ret=%d dest=%d/%d/%d/%d left=%zu, #2 ret=%d dest=%d/%d/%d/%d left=%zu, get_item %s left=%zu",
+	         r.r[0], r.d[0].lay, r.d[0].grf, r.d[0].wld, r.d[0].dim, r.left[0], r.r[1], r.d[1].lay, r.d[1].grf, r.d[1].wld, r.d[1].dim, r.left[1],
+	         r.item ? "found" : "none", r.item_left);
+	return b;
+}
+static bool gsame(const gresult &a, const gresult &b, bool items)
+{
+	for (int i = 0; i < 2; i++) {
+		if (a.r[i] != b.r[i] || a.left[i] != b.left[i]) return false;
+		if (a.d[i].lay != b.d[i].lay || a.d[i].grf != b.d[i].grf || a.d[i].wld != b.d[i].wld || a.d[i].dim != b.d[i].dim) return false;
+	}
+	return !items || (a.item == b.item && a.item_left == b.item_left);
+}
+static bool with_items;
+static gresult grun(const std::string &txt, const std::vector<size_t> &cuts)
+{
+	size_t k = cuts.size(), pos = 0;
+	std::vector<uint8_t *> blk(k);
+	struct iovec *vec = static_cast<struct iovec *>(vf_xalloc((k - 1) * sizeof(struct iovec)));
+	for (size_t i = 0; i < k; i++) {
+		blk[i] = static_cast<uint8_t *>(vf_xalloc(cuts[i]));
+		if (cuts[i]) memcpy(blk[i], txt.data() + pos, cuts[i]);
+		pos += cuts[i];
+		if (i) { vec[i - 1].iov_base = blk[i]; vec[i - 1].iov_len = cuts[i]; }
+	}
+	gresult res;
+	mpt::message msg(blk[0], cuts[0]);
+	msg.cont = k > 1 ? vec : 0;
+	msg.clen = k - 1;
+	mpt::laydest d(0, 0, 1, 0);
+	for (int i = 0; i < 2; i++) {
+		vf_at("graphic::target"); vf_count("graphic::target", 1);
+		res.r[i] = the_graphic->target(d, msg);
+		res.d[i] = d;
+		res.left[i] = msg.length();
+	}
+	res.item = 0; res.item_left = 0;
+	if (with_items) {
+		mpt::message m2(blk[0], cuts[0]);
+		m2.cont = k > 1 ? vec : 0;
+		m2.clen = k - 1;
+		vf_at("graphic::get_item"); vf_count("graphic::get_item", 1);
+		res.item = the_graphic->get_item(m2);
+		res.item_left = m2.length();
+	}
+	pos = 0;
+	for (size_t i = 0; i < k; i++) {
+		VF_CHECK(!cuts[i] || !memcmp(blk[i], txt.data() + pos, cuts[i]), "cxx:graphic:data-modified", "'%s': fragment %zu changed", txt.c_str(), i);
+		pos += cuts[i];
+		vf_xfree(blk[i], cuts[i]);
+	}
+	vf_xfree(vec, (k - 1) * sizeof(struct iovec));
+	return res;
+}
+static std::vector<std::string> gtexts;
+static void gtexts_setup()
+{
+	if (!gtexts.empty()) return;
+	static const char *lays_q[] = { "lay", "1", "", "no" }, *lays_t[] = { "lay", "1", "", "no", "2", "la", "lay1" };
+	static const char *grfs_q[] = { "g2", "2", "", "g3" }, *grfs_t[] = { "g1", "g2", "1", "2", "", "g3", "g" };
+	static const char *wlds_q[] = { "w2", "1", "", "w3" }, *wlds_t[] = { "w1", "w2", "1", "2", "", "w3", "w" };
+	static const char *dims_q[] = { "", ":y", ":q" }, *dims_t[] = { "", ":x", ":y", ":z", ":1", ":q", ":", ":y " };
+	const char **L = vf_thorough ? lays_t : lays_q, **G = vf_thorough ? grfs_t : grfs_q, **W = vf_thorough ? wlds_t : wlds_q, **D = vf_thorough ? dims_t : dims_q;
+	size_t nl = vf_thorough ? 7 : 4, ng = vf_thorough ? 7 : 4, nw = vf_thorough ? 7 : 4, nd = vf_thorough ? 8 : 3;
+	for (size_t a = 0; a < nl; a++) for (size_t b = 0; b < ng; b++) for (size_t c = 0; c < nw; c++) for (size_t d = 0; d < nd; d++)
+		gtexts.push_back(std::string(L[a]) + ":" + G[b] + ":" + W[c] + D[d]);
+	/* two addresses in one message: the second call starts where the first stopped */
+	static const char *two[] = { "lay:g2::y lay:g1:w1", "lay:g1::x :g2::z", "1:1:1:0 1:2:2:1", "lay:g2:w2:y :::z", "lay:g1:w1:x\tlay:g2:w2", "lay", "lay:g1", ":", "::", "lay:g2:w2:y:", "" };
+	for (const char *t : two) gtexts.push_back(t);
+}
+static uint64_t n_graphic() { gtexts_setup(); return gtexts.size(); }
+static unsigned long g_third;
+static void gcompare(const std::string &txt, const std::vector<size_t> &cuts, const gresult &ref)
+{
+	gresult cur = grun(txt, cuts);
+	/* position of the fragment the last ':' lies in */
+	size_t pos = 0, k = cuts.size();
+	bool third = false;
+	for (size_t i = 0; i < k; i++) {
+		if (i >= 2 && cuts[i] && memchr(txt.data() + pos, ':', cuts[i])) third = true;
+		pos += cuts[i];
+	}
+	if (k >= 3 && third) { vf_count("graphic:colon-in-third-or-later-fragment", 1); g_third++; }
+	if (!gsame(ref, cur, with_items)) {
+		std::string c;
+		for (size_t i = 0; i < k; i++) c += (i ? "," : "") + std::to_string(cuts[i]);
+		bool t = gsame(ref, cur, false);
+		vf_fail(t ? "cxx:graphic-get_item:fragmented-differs" : "cxx:graphic-target:fragmented-differs", "'%s' cut as {%s}: %s; contiguous: %s", txt.c_str(), c.c_str(), gshow(cur).c_str(), gshow(ref).c_str());
+	}
+	vf_count("monitor:graphic-compared", 1);
+}
+static void gcuts(const std::string &txt, std::vector<size_t> &cuts, size_t k, size_t left, const gresult &ref)
+{
+	if (cuts.size() + 1 == k) {
+		cuts.push_back(left);
+		gcompare(txt, cuts, ref);
+		cuts.pop_back();
+		return;
+	}
+	for (size_t n = 0; n <= left; n++) {
+		cuts.push_back(n);
+		gcuts(txt, cuts, k, left - n, ref);
+		cuts.pop_back();
+	}
+}
+static void case_graphic(uint64_t idx, vf_rng *r)
+{
+	graphic_setup();
+	gtexts_setup();
+	const std::string &txt = gtexts[idx];
+	size_t len = txt.size();
+	/*
+	 * get_item() is not driven: on this tree it faults on *contiguous* input already
+	 * ("lay:g2:w2": global-buffer-overflow in collection::relation::find called from
+	 * graphic.cpp get_item) - a defect outside "fragmented reads like contiguous"
+	 * that would void every comparison.  The code path stays here, switched off.
+	 */
+	with_items = false;
+	std::vector<size_t> cuts(1, len);
+	gresult ref = grun(txt, cuts);
+	vf_fp_u64(0xC17E); vf_fp(txt.data(), len);
+	vf_count(ref.r[0] >= 0 ? "graphic:contiguous-target-accepted" : "graphic:contiguous-target-refused", 1);
+	if (ref.r[1] >= 0) vf_count("graphic:contiguous-second-target-accepted", 1);
+	g_third = 0;
+	size_t maxk = len <= 14 ? 5 : 4;
+	for (size_t k = 2; k <= maxk; k++) {
+		cuts.clear();
+		gcuts(txt, cuts, k, len, ref);
+	}
+	/* PRNG lists with more fragments */
+	for (int i = 0; i < 20; i++) {
+		cuts.clear();
+		size_t left = len;
+		int k = 3 + vf_below(r, 6);
+		for (int j = 0; j + 1 < k; j++) { size_t n = vf_chance(r, 1, 4) ? 0 : vf_below(r, (uint32_t) left + 1); if (n > 4 && vf_chance(r, 1, 2)) n = vf_below(r, 4); cuts.push_back(n); left -= n; }
+		cuts.push_back(left);
+		gcompare(txt, cuts, ref);
+	}
+	if (g_third) vf_nontrivial();
+	if (idx % 37 == 5) vf_sample("graphic: '%s' contiguous -> %s; every cut into 2..%zu fragments + 20 PRNG lists", txt.c_str(), gshow(ref).c_str(), maxk);
+}
+
+uint64_t vf_cases(void) { return n_ex() + n_prng() + n_graphic(); }
 
 void vf_case(uint64_t idx, vf_rng *r)
 {
@@ -204,6 +391,7 @@ void vf_case(uint64_t idx, vf_rng *r)
 		if (idx % 1499 == 7) vf_sample("every-fragment-list: data %s %s, read plans", vf_hex(hx1, sizeof(hx1), t.S.data(), L), t.desc.c_str());
 		return;
 	}
+	if (idx >= n_ex() + n_prng()) { case_graphic(idx - n_ex() - n_prng(), r); return; }
 	size_t L = vf_chance(r, 1, 10) ? vf_below(r, 300) : vf_below(r, 49), left = L;
 	size_t maxk = vf_chance(r, 1, 4) ? 40 : 8;
 	while ((left || t.flen.empty() || vf_chance(r, 1, 6)) && t.flen.size() < maxk) {
